@@ -161,6 +161,14 @@ impl SyncTable {
                     is_transfer_target: false,
                     claimed_twice: false,
                 });
+                #[cfg(salsa_rs_salsa_verif)]
+                crate::verif_proto::record(&[
+                    crate::verif_proto::P::S("claim"),
+                    crate::verif_proto::P::T(thread::current().id()),
+                    crate::verif_proto::P::K(DatabaseKeyIndex::new(self.ingredient, key_index)),
+                    crate::verif_proto::P::S(if reentrant.is_allow() { "allow" } else { "deny" }),
+                    crate::verif_proto::P::S("-> claimed default"),
+                ]);
                 ClaimResult::Claimed(ClaimGuard {
                     key_index,
                     zalsa,
@@ -214,6 +222,17 @@ impl SyncTable {
                     BlockResult::Cycle => ClaimResult::Cycle { inner: false },
                 }
             }
+            #[cfg(salsa_rs_salsa_verif)]
+            Err(_) => {
+                crate::verif_proto::record(&[
+                    crate::verif_proto::P::S("peek"),
+                    crate::verif_proto::P::T(thread::current().id()),
+                    crate::verif_proto::P::K(DatabaseKeyIndex::new(self.ingredient, key_index)),
+                    crate::verif_proto::P::S(if reentrant.is_allow() { "allow" } else { "deny" }),
+                    crate::verif_proto::P::S("-> claimed"),
+                ]);
+                ClaimResult::Claimed(())
+            }
             Err(_) => ClaimResult::Claimed(()),
         }
     }
@@ -245,6 +264,15 @@ impl SyncTable {
                 *id = SyncOwner::Thread(thread_id);
                 *claimed_twice = true;
 
+                #[cfg(salsa_rs_salsa_verif)]
+                crate::verif_proto::record(&[
+                    crate::verif_proto::P::S("claim"),
+                    crate::verif_proto::P::T(thread_id),
+                    crate::verif_proto::P::K(database_key_index),
+                    crate::verif_proto::P::S("allow"),
+                    crate::verif_proto::P::S("-> claimed selfonly"),
+                ]);
+
                 Ok(ClaimResult::Claimed(ClaimGuard {
                     key_index,
                     zalsa,
@@ -252,6 +280,17 @@ impl SyncTable {
                     shard,
                     mode: ReleaseMode::SelfOnly,
                 }))
+            }
+            #[cfg(salsa_rs_salsa_verif)]
+            BlockTransferredResult::ImTheOwner => {
+                crate::verif_proto::record(&[
+                    crate::verif_proto::P::S("claim"),
+                    crate::verif_proto::P::T(thread_id),
+                    crate::verif_proto::P::K(database_key_index),
+                    crate::verif_proto::P::S("deny"),
+                    crate::verif_proto::P::S("-> cycle inner"),
+                ]);
+                Ok(ClaimResult::Cycle { inner: true })
             }
             BlockTransferredResult::ImTheOwner => Ok(ClaimResult::Cycle { inner: true }),
             BlockTransferredResult::OwnedBy(other_thread) => {
@@ -266,6 +305,14 @@ impl SyncTable {
                     is_transfer_target: false,
                     claimed_twice: false,
                 };
+                #[cfg(salsa_rs_salsa_verif)]
+                crate::verif_proto::record(&[
+                    crate::verif_proto::P::S("claim"),
+                    crate::verif_proto::P::T(thread_id),
+                    crate::verif_proto::P::K(database_key_index),
+                    crate::verif_proto::P::S(if reentrant.is_allow() { "allow" } else { "deny" }),
+                    crate::verif_proto::P::S("-> claimed default"),
+                ]);
                 Ok(ClaimResult::Claimed(ClaimGuard {
                     key_index,
                     zalsa,
@@ -294,12 +341,42 @@ impl SyncTable {
             .block_transferred(database_key_index, thread_id)
         {
             BlockTransferredResult::ImTheOwner if reentrant.is_allow() => {
+                #[cfg(salsa_rs_salsa_verif)]
+                crate::verif_proto::record(&[
+                    crate::verif_proto::P::S("peek"),
+                    crate::verif_proto::P::T(thread_id),
+                    crate::verif_proto::P::K(database_key_index),
+                    crate::verif_proto::P::S("allow"),
+                    crate::verif_proto::P::S("-> claimed"),
+                ]);
                 Ok(ClaimResult::Claimed(()))
+            }
+            #[cfg(salsa_rs_salsa_verif)]
+            BlockTransferredResult::ImTheOwner => {
+                crate::verif_proto::record(&[
+                    crate::verif_proto::P::S("peek"),
+                    crate::verif_proto::P::T(thread_id),
+                    crate::verif_proto::P::K(database_key_index),
+                    crate::verif_proto::P::S("deny"),
+                    crate::verif_proto::P::S("-> cycle inner"),
+                ]);
+                Ok(ClaimResult::Cycle { inner: true })
             }
             BlockTransferredResult::ImTheOwner => Ok(ClaimResult::Cycle { inner: true }),
             BlockTransferredResult::OwnedBy(other_thread) => {
                 entry.get_mut().anyone_waiting = true;
                 Err(other_thread)
+            }
+            #[cfg(salsa_rs_salsa_verif)]
+            BlockTransferredResult::Released => {
+                crate::verif_proto::record(&[
+                    crate::verif_proto::P::S("peek"),
+                    crate::verif_proto::P::T(thread_id),
+                    crate::verif_proto::P::K(database_key_index),
+                    crate::verif_proto::P::S(if reentrant.is_allow() { "allow" } else { "deny" }),
+                    crate::verif_proto::P::S("-> claimed"),
+                ]);
+                Ok(ClaimResult::Claimed(()))
             }
             BlockTransferredResult::Released => Ok(ClaimResult::Claimed(())),
         }
@@ -323,6 +400,19 @@ impl SyncTable {
                 // so that `ClaimGuard::release` no longer exits early.
                 state.anyone_waiting = true;
                 state.is_transfer_target = true;
+
+                #[cfg(salsa_rs_salsa_verif)]
+                {
+                    let [o1, o2] = crate::verif_proto::owner(state.id);
+                    crate::verif_proto::record(&[
+                        crate::verif_proto::P::S("mark"),
+                        crate::verif_proto::P::T(thread::current().id()),
+                        crate::verif_proto::P::K(DatabaseKeyIndex::new(self.ingredient, key_index)),
+                        crate::verif_proto::P::S("->"),
+                        o1,
+                        o2,
+                    ]);
+                }
 
                 state.id
             })
@@ -394,6 +484,23 @@ impl<'me> ClaimGuard<'me> {
         } else {
             WaitResult::Panicked
         };
+        #[cfg(salsa_rs_salsa_verif)]
+        {
+            let [o1, o2] = crate::verif_proto::owner(state.id);
+            crate::verif_proto::record(&[
+                crate::verif_proto::P::S("remove"),
+                crate::verif_proto::P::T(thread::current().id()),
+                crate::verif_proto::P::K(self.database_key_index()),
+                crate::verif_proto::P::S("panicking"),
+                crate::verif_proto::wait_result(result),
+                crate::verif_proto::P::S("->"),
+                crate::verif_proto::P::B(state.anyone_waiting),
+                crate::verif_proto::P::B(state.is_transfer_target),
+                crate::verif_proto::P::B(state.claimed_twice),
+                o1,
+                o2,
+            ]);
+        }
         tracing::debug!(
             "Release claim on {:?} due to {:?}",
             self.database_key_index(),
@@ -441,7 +548,29 @@ impl<'me> ClaimGuard<'me> {
         if state.get().claimed_twice {
             state.get_mut().claimed_twice = false;
             state.get_mut().id = SyncOwner::Transferred;
+            #[cfg(salsa_rs_salsa_verif)]
+            crate::verif_proto::record(&[
+                crate::verif_proto::P::S("release_self"),
+                crate::verif_proto::P::T(thread::current().id()),
+                crate::verif_proto::P::K(self.database_key_index()),
+                crate::verif_proto::P::S("-> kept"),
+            ]);
         } else {
+            #[cfg(salsa_rs_salsa_verif)]
+            {
+                let [o1, o2] = crate::verif_proto::owner(state.get().id);
+                crate::verif_proto::record(&[
+                    crate::verif_proto::P::S("release_self"),
+                    crate::verif_proto::P::T(thread::current().id()),
+                    crate::verif_proto::P::K(self.database_key_index()),
+                    crate::verif_proto::P::S("-> removed"),
+                    crate::verif_proto::P::B(state.get().anyone_waiting),
+                    crate::verif_proto::P::B(state.get().is_transfer_target),
+                    crate::verif_proto::P::B(state.get().claimed_twice),
+                    o1,
+                    o2,
+                ]);
+            }
             self.release(state.remove().0, WaitResult::Completed);
         }
     }
@@ -462,6 +591,13 @@ impl<'me> ClaimGuard<'me> {
             .sync_table()
             .mark_as_transfer_target(new_owner.key_index())
         else {
+            #[cfg(salsa_rs_salsa_verif)]
+            crate::verif_proto::record(&[
+                crate::verif_proto::P::S("mark"),
+                crate::verif_proto::P::T(thread::current().id()),
+                crate::verif_proto::P::K(new_owner),
+                crate::verif_proto::P::S("-> none -"),
+            ]);
             self.release(
                 self.shard
                     .syncs
@@ -519,6 +655,24 @@ impl<'me> ClaimGuard<'me> {
                     .expect("key should only be claimed/released once")
                     .remove()
                     .0;
+
+                #[cfg(salsa_rs_salsa_verif)]
+                {
+                    let [o1, o2] = crate::verif_proto::owner(state.id);
+                    crate::verif_proto::record(&[
+                        crate::verif_proto::P::S("remove"),
+                        crate::verif_proto::P::T(thread::current().id()),
+                        crate::verif_proto::P::K(self.database_key_index()),
+                        crate::verif_proto::P::S("default"),
+                        crate::verif_proto::wait_result(WaitResult::Completed),
+                        crate::verif_proto::P::S("->"),
+                        crate::verif_proto::P::B(state.anyone_waiting),
+                        crate::verif_proto::P::B(state.is_transfer_target),
+                        crate::verif_proto::P::B(state.claimed_twice),
+                        o1,
+                        o2,
+                    ]);
+                }
 
                 self.release(state, WaitResult::Completed);
                 false
